@@ -35,6 +35,12 @@
 #endif
 #define C04_WITH_EXT 1
 #include "c04_builder.h"
+/* secondary witness points are only compiled in the thorough tier (-DWITNESS_ALL): every witness costs a solver call plus a full trace */
+#ifdef WITNESS_ALL
+#define WITNESS_EXTRA(msg) WITNESS_POINT(msg)
+#else
+#define WITNESS_EXTRA(msg) ((void)0)
+#endif
 #ifndef BUFFERED
 #define BUFFERED 1       /* 0: no chain in tempData */
 #endif
@@ -122,7 +128,7 @@ void harness(void) {
 	res = KSI_VerificationRule_ExtendedSignatureCalendarChainAggregationTime(&sb_vc, &r);
 	{
 		u64 ext_time = E->hasAggrTime ? E->aggrTime : E->pubTime;
-		if (ext_time == sig_aggr_time) { CHECK(IS_OK(res, r), "C04.Hcmp CAL-03 rule: same aggregation time is OK"); WITNESS_POINT("CAL-03 rule OK"); }
+		if (ext_time == sig_aggr_time) { CHECK(IS_OK(res, r), "C04.Hcmp CAL-03 rule: same aggregation time is OK"); WITNESS_EXTRA("CAL-03 rule OK"); }
 		else { CHECK(IS(res, r, KSI_VER_RES_FAIL, KSI_VER_ERR_CAL_3), "C04.Hcmp another aggregation time in the extender chain yields FAIL CAL-03"); if (ext_time == sig_aggr_time + 1) WITNESS_POINT("CAL-03 one second off"); }
 	}
 #endif
@@ -237,7 +243,7 @@ void harness(void) {
 		CHECK(IS_ERR(res, r), "C04.Hcmp PUB-02 rule without anchor time: error status and NA");
 	} else if (E->pubTime != A->time) {
 		CHECK(IS(res, r, KSI_VER_RES_FAIL, KSI_VER_ERR_PUB_2), "C04.Hcmp extender chain of another publication time yields FAIL PUB-02");
-		WITNESS_POINT("PUB-02 publication time");
+		WITNESS_EXTRA("PUB-02 publication time");
 	} else {
 #if C04_EXT_HAS_AGGRTIME
 		if (E->aggrTime != signing) {
@@ -277,7 +283,7 @@ void harness(void) {
 	if (sb_tmp.aggregationOutputHash == NULL) {
 		/* the aggregation chains could not be aggregated (level out of range): internal verification would have failed before */
 		CHECK(!(res == KSI_OK && r.resultCode == KSI_VER_RES_OK), "C04.Hcmp input hash rule is never OK when the aggregation root cannot be computed");
-		WITNESS_POINT("aggregation root not computable");
+		WITNESS_EXTRA("aggregation root not computable");
 	} else {
 		CHECK(VERIF_hm_overflow == 0 && VERIF_hm_nrec == 1, "C04.Hcmp input hash rule aggregates the signature's aggregation chain (one link, one hash)");
 		/* the hashed message starts with (or ends, after the sibling, with) the chain's own input hash */
@@ -286,7 +292,7 @@ void harness(void) {
 		  for (unsigned i = 0; i < 65; i++) if (i < I->len && VERIF_hm_rec[0].msg[off + i] != I->imp[i]) e = 0;
 		  own = e; }
 		CHECK(own, "C04.Hcmp the aggregation root is computed from the signature's own input hash");
-		if (rec_eq_hash(0, &E->in)) { CHECK(IS_OK(res, r), "C04.Hcmp extender chain starting from the aggregation root is OK"); WITNESS_POINT("input hash rule OK"); }
+		if (rec_eq_hash(0, &E->in)) { CHECK(IS_OK(res, r), "C04.Hcmp extender chain starting from the aggregation root is OK"); WITNESS_EXTRA("input hash rule OK"); }
 		else { CHECK(IS(res, r, KSI_VER_RES_FAIL, code), "C04.Hcmp extender chain starting from another input hash yields FAIL CAL-02 / PUB-03"); WITNESS_POINT("CAL-02 / PUB-03"); }
 	}
 #endif
